@@ -10,7 +10,7 @@ from vlib import core, e2e, text_oracles
 from vlib.coord_common import first_diff
 from vlib.props import C08
 
-MODS = ['S4V.Props.StreamSpec', 'S4V.Props.StreamSearchSpec']
+MODS = ['S4V.Props.StreamSpec', 'S4V.Props.StreamSearchSpec', 'S4V.Props.TarMemberSpec']
 LEVEL_NOTE = ("Proved over the model of BlockReader::new / read_block / read_block_File{,Gz,Bz2,Lz4,Xz,Tar} / drop_block and the copy loop of "
               "decompress_to_ntf, with a decoder modelled as the decompressed bytes plus an ARBITRARY script of chunk sizes: for every block size >= 1, "
               "every content (empty, one byte, exact multiples) and every chunking, gz, bz2 and lz4 assemble exactly the plain file's blocks; xz (split in new, "
@@ -43,7 +43,7 @@ LEVEL_NOTE = ("Proved over the model of BlockReader::new / read_block / read_blo
               "is_drop_data() after stage 1 must equal the generated keepAllBlocks condition. End to end: stdout(plain) == stdout(container) for text logs, wtmp, evtx and a journal.")
 ASSUME = ["the decoders (flate2, bzip2-rs, lz4_flex, lzma-rs, tar) deliver the right bytes in some chunking, or fail; bzip2-rs rejects some valid streams (known finding F23)",
           "single-stream / single-member containers; gzip ISIZE is the true size (< 4 GiB)",
-          "tar member lookup by path (process_path_tar) and file-type classification are covered by C15/C16, not here"]
+          "file-type classification of a member is covered by C15/C16, not here; WHICH member's bytes a listed entry reads is TarMemberSpec"]
 
 JOURNAL_GZ = os.path.join(core.REPO, 'logs/programs/journal/Ubuntu22-user-1000x3.journal.gz')
 EVTX = os.path.join(core.REPO, 'logs/programs/evtx/Microsoft-Windows-Kernel-PnP%4Configuration.evtx')
@@ -130,7 +130,8 @@ def corr_asm(ctx):
     os.environ['S4H_TMP'] = os.path.join(ctx.work, 'tmp')
     d = make_corpus(ctx)
     return [core.correspond(ctx, 'asm', ctx.q(2000, 40000), extra=['corpus', d]),
-            core.correspond(ctx, 'strm', ctx.q(1200, 12000), extra=['corpus', d])]
+            core.correspond(ctx, 'strm', ctx.q(1200, 12000), extra=['corpus', d]),
+            core.correspond(ctx, 'tarm', ctx.q(1500, 15000))]
 
 
 def run(path, extra=()):
@@ -465,7 +466,7 @@ def oracle(ctx):
 
 
 def check(ctx):
-    return core.standard_check(ctx, ['Blocks', 'Stream'], MODS, [], oracle, LEVEL_NOTE, ASSUME, extra_corr_fn=corr_asm)
+    return core.standard_check(ctx, ['Blocks', 'Stream', 'TarMember'], MODS, [], oracle, LEVEL_NOTE, ASSUME, extra_corr_fn=corr_asm)
 
 
 def replay(ctx, data):
